@@ -89,15 +89,14 @@ func errShape(c *core.Ctx, cs srcCase, errs []*errors.Error) {
 			}
 			if len(spans) > 0 && !spans[[2]int{p.StartPos, p.EndPos}] {
 				c.Report("error shape: syntax error does not select a token of the source", mkWhat("%s at [%d,%d) %q in %q", e.Msg, p.StartPos, p.EndPos, src[p.StartPos:p.EndPos], src), cs)
-			} else if want := "unexpected " + quoteTok(src[p.StartPos:p.EndPos]); !strings.Contains(e.Msg, "unexpected T_") && !strings.Contains(e.Msg, want) && p.EndPos-p.StartPos == 1 {
-				// one-character tokens are named by their text: '…'
+			} else if want := string(src[p.StartPos:p.EndPos]); !strings.Contains(e.Msg, "unexpected T_") && !strings.Contains(strings.SplitN(e.Msg, "unexpected", 2)[1], want) && p.EndPos-p.StartPos == 1 {
+				// one-character tokens are named by their text (however the message quotes it)
 				c.Report("error shape: syntax error names another token than the one it selects", mkWhat("%s selects %q in %q", e.Msg, src[p.StartPos:p.EndPos], src), cs)
 			}
 		}
 	}
 }
 
-func quoteTok(b []byte) string { return "'" + string(b) + "'" }
 
 // c06One: mode in cs.Aux — "invalid" (the program is known to be invalid), "valid" (known valid), "" unknown.
 func c06One(c *core.Ctx, cs srcCase) {
